@@ -1313,7 +1313,17 @@ func judgeRerun(ref *refRun, d int, C, R *State, res *drvResult, victim []DrvOp,
 					unlisted[w] = true
 				}
 				if !hs[w] {
-					add("rerun-referrer-not-listed", "after repeating the interrupted operation(s) the referrers list %q (exists: %v) does not list %s, which the uninterrupted run lists; manifest file of that referrer present: %v",
+					// A referrer that a repeated ManifestPut of the suffix itself pushes must be listed by
+					// that very call; only a referrer reached through an image copy falls under the copy's
+					// "target already has it" shortcut (the known rerun-referrer-not-listed).
+					sig := "rerun-referrer-not-listed"
+					for i := d; i < len(victim); i++ {
+						if victim[i].Op == "manifest" && victim[i].Digest == w && i < len(ref.Outcomes) && ref.Outcomes[i].OK {
+							sig = "rerun-manifest-put-does-not-list-referrer"
+							delete(unlisted, w)
+						}
+					}
+					add(sig, "after repeating the interrupted operation(s) the referrers list %q (exists: %v) does not list %s, which the uninterrupted run lists; manifest file of that referrer present: %v",
 						t, ok, short(w), R.Files[w])
 				}
 			}
@@ -1929,15 +1939,11 @@ func kindMatrix() []Case {
 	}
 	// layouts written by other tools: operations that hit their entries
 	for _, st := range seedStyles {
-		audit = append(audit,
-			Case{Seed: st, Victim: []Op{{Kind: "put", Obj: Obj{"image", 1}, Tag: "v1"}, {Kind: "close"}}, Prep: true},
-			Case{Seed: st, Victim: []Op{{Kind: "tagdel", Tag: "v1"}, {Kind: "close"}}},
-			Case{Seed: st, Victim: []Op{{Kind: "mandel", Obj: Obj{"image", 0}}}},
-		)
+		audit = append(audit, Case{Seed: st, Victim: []Op{{Kind: "put", Obj: Obj{"image", 1}, Tag: "v1"}, {Kind: "tagdel", Tag: "v2"}, {Kind: "close"}}, Prep: true})
 	}
 	audit = append(audit,
-		Case{Seed: "fullname", Victim: []Op{{Kind: "copy", Src: "x1", Tag: "v2", Referrers: true}}},
-		Case{Seed: "dup", Victim: []Op{{Kind: "import", Obj: Obj{"image", 3}, Tag: "v1"}}},
+		Case{Seed: "fullname", Victim: []Op{{Kind: "mandel", Obj: Obj{"image", 0}}, {Kind: "copy", Src: "x1", Tag: "v2", Referrers: true}}},
+		Case{Seed: "dup", Victim: []Op{{Kind: "mandel", Obj: Obj{"image", 0}}, {Kind: "import", Obj: Obj{"image", 3}, Tag: "v1"}}},
 		Case{Seed: "leftovers", Victim: []Op{{Kind: "put", Obj: Obj{"artifact", 0}}, {Kind: "close"}}, Prep: true},
 	)
 	for _, c := range audit {
